@@ -349,6 +349,10 @@ func fnPath(seed uint64, n int) {
 		}
 		return nil
 	})
+	// the one path outside the tree the generator can name as a start: the model has to see what the OS sees there
+	for _, q := range []string{"/etc", "/etc/passwd"} {
+		tree[q] = kindOf(q)
+	}
 	for i := 0; i < n; i++ {
 		p := genPath(r)
 		if r.p(10) {
